@@ -99,6 +99,9 @@ func c10(env *core.Env) {
 			p := planned{required: scopeLattice[c.Int("required", len(scopeLattice))]}
 			if c.Bool("desired", 1, 3) {
 				p.desired = scopeLattice[c.Int("desired.scope", len(scopeLattice)-1)]
+				if c.Bool("desired.everything", 1, 6) {
+					p.desired = desiredEverything
+				}
 			}
 			switch c.Weighted("gap", []int{5, 3, 2, 1}) {
 			case 1:
@@ -208,6 +211,9 @@ func describeOuts(outs []*outReq) string {
 }
 
 func checkC10Call(env *core.Env, w *authWorld, h *regHost, res *callResult, required, desired string, cachedOK *issuedToken, knewBefore func(callID int) bool) {
+	if desired == desiredEverything {
+		desired = ""
+	}
 	reqSet, desSet := parseNaive(required), parseNaive(desired)
 	var lastChallenge *outReq
 	realmSeen := 0
